@@ -50,6 +50,12 @@ def z_valid_date(y, m, d):
     return z3.And(y >= 1, y <= 9999, m >= 1, m <= 12, d >= 1, d <= z_days_in_month(y, m))
 
 
+def z_lex_le(a, b):
+    (y1, m1, d1), (y2, m2, d2) = a, b
+    return z3.Or(y1 < y2, z3.And(y1 == y2, z3.Or(m1 < m2, z3.And(m1 == m2, d1 <= d2))))
+
+
+A_DATE_MONO = "the Gregorian ordinal is strictly increasing in the lexicographic order of valid (year, month, day) triples (validated against datetime for all consecutive ordinals in thorough runs)"
 A_DATE = "datetime.date(y,m,d).toordinal() is the proleptic Gregorian formula; date.fromordinal is its inverse on 1..3652059; invalid (y,m,d) raise ValueError (validated against datetime)"
 A_MONTHRANGE = "calendar.monthrange(y,m)[1] is the Gregorian month length (validated against calendar)"
 A_RANGE = "builtin range(a,b,s): length max(0, ceil((b-a)/s)), item i is a+i*s (validated against CPython)"
@@ -1094,7 +1100,21 @@ class Lib:
         if all(isinstance(x, int) for x in (y, m, dd)):
             return datetime.date(y, m, dd).toordinal()
         I.ctx.note_assumption(A_DATE)
-        return SV(z_ymd2ord(to_z3(y), to_z3(m), to_z3(dd)))
+        o = z_ymd2ord(to_z3(y), to_z3(m), to_z3(dd))
+        self.register_date(I, (to_z3(y), to_z3(m), to_z3(dd)), o)
+        return SV(o)
+
+    def register_date(self, I, ymd, o):
+        """Ground instances of the (assumed, validated) monotonicity lemma for every pair of valid dates."""
+        dates = I.ctx.ghost.setdefault("dates", [])
+        key = tuple(t.get_id() for t in ymd)
+        if any(k == key for k, _, _ in dates):
+            return
+        for _, ymd2, o2 in dates:
+            I.ctx.note_assumption(A_DATE_MONO)
+            I.ctx.assume(z_lex_le(ymd2, ymd) == (o2 <= o))
+            I.ctx.assume(z_lex_le(ymd, ymd2) == (o <= o2))
+        dates.append((key, ymd, o))
 
     def c_fromordinal(self, I, a, k, n):
         x = a[0]
@@ -1120,6 +1140,7 @@ class Lib:
             I.ctx.assume(z_valid_date(y.t, m.t, d.t))
             I.ctx.assume(z_ymd2ord(y.t, m.t, d.t) == x.t)
             cache[key] = (y, m, d)
+            self.register_date(I, (y.t, m.t, d.t), x.t)
         y, m, d = cache[key]
         return LibObj("date", year=y, month=m, day=d)
 
